@@ -42,12 +42,20 @@ def unS(tok):
     return bytes.fromhex(tok[1:])
 
 
+_SHARD_SEQ = [0]
+
+
 def shards(ctx, exe, name, lines, extra=()):
+    """run exe over the lines split in up to NCPU files, in parallel; returns the output lines in order.
+    (file names are unique per call: other checks call this concurrently from threads)"""
+    import threading
     n = max(1, min(vf.NCPU, len(lines) // 40 + 1))
     procs = []
+    _SHARD_SEQ[0] += 1
+    uniq = "%d_%d_%d" % (os.getpid(), threading.get_ident() % 100000, _SHARD_SEQ[0])
     for k in range(n):
         part = lines[k::n]
-        p = os.path.join(ctx.workdir, "%s.%d.cases" % (name, k))
+        p = os.path.join(ctx.workdir, "%s.%s.%d.cases" % (name, uniq, k))
         with open(p, "w") as f:
             f.write("\n".join(part) + ("\n" if part else ""))
         # (output goes to a file, not a pipe: the lines are long and a full pipe would serialise the shards)
@@ -61,6 +69,10 @@ def shards(ctx, exe, name, lines, extra=()):
         with open(po, "rb") as f:
             o = f.read().decode("utf-8", "replace").split("\n")
         os.remove(po)
+        try:
+            os.remove(po[:-4])
+        except OSError:
+            pass
         for i in range(cnt):
             out[k + i * n] = o[i] if i < len(o) else "<missing>"
     return out
